@@ -34,4 +34,4 @@ def main(tier):
         'complete programs of the AstEnum machine with alternating sequential / parallel nesting to depth 4, unequal '
         'branch lengths, empty blocks, subcircuit blocks and loops (also inside parallel blocks: must be rejected); '
         'non-trivial = distinct programs with a parallel block and at least one more block',
-        strata=(stratum, {True: 0.5, False: 0.5}))
+        strata=(stratum, {True: 0.5, False: 0.5}), variants=('edge',))
